@@ -149,6 +149,15 @@ BUILT = {
             'version ordering.',
             'Version ordering computed by the check itself (integer triple, pre-release rank).',
             'DESIGN.md 3/C19'),
+    'C16': ('model_checking',
+            'explicit-state exploration of program histories; six real executions per program, independent format decoders',
+            'For every accepted program history of depth <=3 (thorough 4) over a 12-symbol alphabet under address widths 8/12/16/24, '
+            'the exact address->byte map is recovered from two images (fill 00/ff) and the Intel HEX records, the hex dump, the '
+            'compact hex format and the listing columns, each decoded by an independent decoder, must give the same map; listing '
+            'rows are compared with the reference lines (each statement once, its address, its bytes, nothing for muted lines).',
+            'Decoders mc/formats.py; reference lines mc/refasm.py; the compact format is told the lowest emitted address when no '
+            'origin precedes its first data line.',
+            'DESIGN.md 3/C16'),
 }
 
 NOT_BUILT_REASON = 'check not built yet (work in progress in this session); no claim made'
